@@ -174,6 +174,17 @@ class Folder:
                             return UNKNOWN
                         out |= set(av)
                     return out
+            if fname in ("chr", "ord") and len(node.args) == 1 and not node.keywords:
+                v = f(node.args[0])
+                try:
+                    return chr(v) if fname == "chr" and isinstance(v, int) else ord(v) if fname == "ord" and isinstance(v, str) and len(v) == 1 else UNKNOWN
+                except (ValueError, TypeError):
+                    return UNKNOWN
+            if isinstance(fn, ast.Attribute) and fn.attr == "join" and len(node.args) == 1 and not node.keywords:
+                sep, parts = f(fn.value), f(node.args[0])
+                if isinstance(sep, (str, bytes)) and isinstance(parts, (list, tuple)) and all(isinstance(x, type(sep)) for x in parts):
+                    return sep.join(parts)
+                return UNKNOWN
             if fname == "range" and 1 <= len(node.args) <= 3:
                 vs = [f(a) for a in node.args]
                 if all(isinstance(x, int) for x in vs) and abs(vs[-1 if len(vs) == 1 else 1]) <= 100000:
